@@ -908,3 +908,50 @@ func TestC11Globals(t *testing.T) {
 }
 
 func init() { reg("C11.global", checkC11Global) }
+
+// ---- variables of the includer that hold null ------------------------------------------------------------------
+
+type C11NullCase struct {
+	Which int `json:"which"`
+}
+
+var c11NullMains = []string{
+	"{% include 'inc' %}",
+	"{% include 'inc' with {'y': 1} %}",
+	"{% for i in [1] %}{% include 'inc' %}{% endfor %}",
+	"{% include 'outer' %}",
+	"{% set z = null %}{% include 'inc' %}",
+	"{% macro m(x) %}{% include 'inc' %}{% endmacro %}{{ m(null) }}",
+	"{% include 'inc' with {'x': null} only %}",
+	"{% extends 'layout' %}{% block b %}{% include 'inc' %}{% endblock %}",
+}
+
+// checkC11Null: the tests an included template makes on a variable of the including template give
+// the answers the including template gets itself, also when the variable holds null.
+func checkC11Null(c C11NullCase) error {
+	main := c11NullMains[c.Which%len(c11NullMains)]
+	const probe = "{{ x is defined ? 'def' : 'undef' }},{{ x is not defined ? 'nd' : 'd' }},{{ x is null ? 'null' : 'nn' }},{{ x|default('dflt') }},{{ nope is defined ? 'def' : 'undef' }}"
+	tm := map[string]string{"main": main, "inc": "[" + probe + "]", "outer": "<{% include 'inc' %}>", "layout": "L({% block b %}{% endblock %})", "self": probe}
+	ctx := map[string]interface{}{"x": nil}
+	want := render(newEngine(tm), "self", ctx)
+	r := render(newEngine(tm), "main", ctx)
+	if want.Failed() || r.Failed() || !strings.Contains(r.Out, "["+want.Out+"]") {
+		return fmt.Errorf("context x = null: the template itself answers %v; included through %s the same tests answer %v", want, q(main), r)
+	}
+	return nil
+}
+
+func TestC11Null(t *testing.T) {
+	r := NewRec(t, "C11", "exhaustive: 8 arrangements (plain, with, in a loop, nested, after a set, in a macro whose parameter is null, with-only passing null, in a block of a child template) of an include whose template tests a variable that holds null (is defined, is not defined, is null, default); oracle: the answers the including level gets for the same tests; all cases non-trivial")
+	defer r.Flush()
+	r.SetExhaustive()
+	for i := range c11NullMains {
+		c := C11NullCase{Which: i}
+		r.Case(fmt.Sprint(i), true, c11NullMains[i])
+		if err := checkC11Null(c); err != nil {
+			r.FailEnum(t, "C11.null", c, err)
+		}
+	}
+}
+
+func init() { reg("C11.null", checkC11Null) }
